@@ -82,6 +82,14 @@ pub fn run_path(path: &str, text: &str) -> R {
         match path {
             "flat" => observe(&p(FX::parse(text))?),
             "flat_wo" => observe(&p(FX::parse_wo_compile(text))?),
+            // evaluated before and after an explicit compile(): nothing computed for the uncompiled
+            // form may survive the folding
+            "wo_eval_compile_eval" => {
+                let mut f = p(FX::parse_wo_compile(text))?;
+                let _ = observe(&f);
+                f.compile();
+                observe(&f)
+            }
             "flat_vec" => observe_consuming(&p(FX::parse(text))?, false),
             "flat_iter" => observe_consuming(&p(FX::parse(text))?, true),
             "flat_wo_vec" => observe_consuming(&p(FX::parse_wo_compile(text))?, false),
